@@ -131,6 +131,7 @@ def rule_isolate(chk, bp):
             ok = ok and v is not None and v["id"] != pid and v.get("name") == "ir"
         chk.ob("C17.isolate/%s-on-clone" % name, ok, "%s runs on the per-pipeline clone" % name if ok else
                "%s is not applied to the per-pipeline clone" % name, where(bp))
+    rule_selected_only(chk)
     # metadata from the selected pipeline
     sel = None
     for p in params:
@@ -182,3 +183,47 @@ def rule_dup(chk):
         chk.ob("C17.dup/unique-names", ok, "a pipeline is registered only if no earlier pipeline has the same name" if ok else
                "pipelines are registered without a duplicate-name check: two pipelines with one name make "
                "Module::select_pipeline's assert / compile's `Multiple pipelines` panic reachable", where(pp, t.get("ln")))
+
+
+def rule_selected_only(chk):
+    """The per-pipeline clone still lists every pipeline of the file; an exporter may only look at the selected one:
+    every read of Module::pipelines in rssl_hlsl / rssl_msl is `pipelines[<variable>]` (never an iteration, never a
+    constant index), so what is emitted for one pipeline cannot depend on which other pipelines are declared."""
+    f = chk.facts
+    n = 0
+    for crate in ("rssl_hlsl", "rssl_msl"):
+        for b in f.crates[crate]["bodies"]:
+            if "thir" not in b:
+                continue
+            par = {}
+            for x in F.walk(b["thir"]):
+                for c in F.children(x):
+                    if isinstance(c, dict):
+                        par[id(c)] = x
+            owner = short(b.get("parent") or b["path"])
+            k = 0
+            for x in F.walk(b["thir"]):
+                if not (x.get("k") == "Field" and x.get("name") == "pipelines" and "ir_module::Module" in x.get("of", "")):
+                    continue
+                y = par.get(id(x))
+                while y is not None and y.get("k") in ("Borrow", "Deref", "Coerce"):
+                    y = par.get(id(y))
+                ok = False
+                how = "used as a whole"
+                if y is not None and y.get("k") == "Call" and short(y.get("fn") or "") in ("index", "index_mut") and len(y.get("args", [])) > 1:
+                    ix = F.strip(y["args"][1])
+                    ok = ix.get("k") == "Var"
+                    how = "indexed by %s" % ("a variable" if ok else "a constant / computed index")
+                elif y is not None and y.get("k") == "Index":
+                    ix = F.strip(y["i"])
+                    ok = ix.get("k") == "Var"
+                    how = "indexed by %s" % ("a variable" if ok else "a constant / computed index")
+                elif y is not None and y.get("k") == "Call":
+                    how = "passed to %s" % short(y.get("fn") or "?")
+                n += 1
+                chk.ob("C17.isolate/selected-only/%s/%s#%d" % (crate.replace("rssl_", ""), owner, k), ok,
+                       "module.pipelines[<selected>]" if ok else
+                       "%s reads module.pipelines %s: every pipeline declared in the file (not only the selected one) influences what is emitted for this pipeline" % (owner, how),
+                       where(b, x))
+                k += 1
+    chk.floor("C17.floor/pipelines-reads", n, 5, "reads of Module::pipelines in the exporters", "rssl_hlsl / rssl_msl")
